@@ -562,7 +562,7 @@ func sfDecode(s string) []sfCmd {
 		p := strings.SplitN(c, ":", 2)
 		cmd := sfCmd{tag: string(unhx(p[0]))}
 		for _, sg := range strings.Split(p[1], ",") {
-			f := strings.Split(sg[2:], ".")
+			f := strings.Split(sg[3:], ".")
 			k := sg[0]
 			if k == 'e' {
 				k = 0
